@@ -12,6 +12,7 @@ import os
 import re
 import shutil
 import subprocess
+import tempfile
 import time
 
 from .common import VERIF, MachineryError
@@ -69,7 +70,7 @@ def run(ctx, module, cfg, *, name=None, workers=None, simulate=None, depth=None,
     with open(cfgp, "w") as f:
         f.write(cfg)
     workers = workers or ctx.ncpu
-    java = ["java", "-XX:+UseParallelGC", "-Xmx" + heap]
+    java = ["java", "-XX:+UseParallelGC", "-Xmx" + heap, "-Djava.io.tmpdir=" + getattr(ctx, "tmp", tempfile.gettempdir())]
     if dfs:
         java.append("-Dtlc2.tool.queue.IStateQueue=StateDeque")
     cmd = java + ["-cp", JAR + ":" + DEPS, "tlc2.TLC", "-config", cfgp, "-workers", str(workers),
@@ -188,8 +189,12 @@ def _parse(res, out):
 def sany(path):
     """Parse-check one module; returns (ok, output)."""
     d = os.path.dirname(path)
-    p = subprocess.run(["java", "-cp", JAR + ":" + DEPS, "tla2sany.SANY", path], cwd=d,
-                       stdout=subprocess.PIPE, stderr=subprocess.STDOUT, text=True)
+    tmp = tempfile.mkdtemp(prefix="verif-sany-")
+    try:
+        p = subprocess.run(["java", "-Djava.io.tmpdir=" + tmp, "-cp", JAR + ":" + DEPS, "tla2sany.SANY", path], cwd=d,
+                           stdout=subprocess.PIPE, stderr=subprocess.STDOUT, text=True)
+    finally:
+        shutil.rmtree(tmp, ignore_errors=True)
     ok = p.returncode == 0 and "*** Errors" not in p.stdout and "Fatal" not in p.stdout and "Could not" not in p.stdout
     return ok, p.stdout
 
